@@ -55,7 +55,8 @@ Definition emit (s : st) (d : N) (ps : list bp) : st := mkSt d (out s ++ ps) (di
 Definition ack_of (n : N) : list bp := if n =? 0 then [] else [PAck n].
 
 Section Step.
-  Variable fixed : bool.     (* false: today's code; true: findings C21-1 and C21-2 repaired *)
+  Variable fixed1 : bool.    (* finding C21-1 repaired (consumeCommand forwards the acknowledgement of a signed command) *)
+  Variable fixed2 : bool.    (* finding C21-2 repaired (modifyCommand keeps the last-seen update) *)
   Variable cfg : config.
 
   (* ChatState.AccumulateAckCount + chatQueue.HandleAcknowledgement *)
@@ -70,14 +71,14 @@ Section Step.
   Definition consume (s : st) (signed : bool) (o' : N) : st :=
     if signed then
       if c_fka cfg then mkSt 0 (out s) true (lost1 s) (lost2 s) (hit2 s)
-      else if fixed then emit s 0 (ack_of o')
+      else if fixed1 then emit s 0 (ack_of o')
       else mkSt 0 (out s) false (lost1 s + o') (lost2 s) (hit2 s) (* returns nil: o' is gone *)
     else emit s 0 (ack_of o').
 
   (* modifyCommand: rebuilt through chat.Builder without the last-seen update *)
   Definition modify (s : st) (id : N) (signed : bool) (o' : N) : st :=
     if signed && c_fka cfg then mkSt 0 (out s) true (lost1 s) (lost2 s) (hit2 s)
-    else if fixed then emit s 0 [PCmd id o']
+    else if fixed2 then emit s 0 [PCmd id o']
     else mkSt 0 (out s ++ [if c_p1205 cfg then PUCmd id else PCmd id 0]) false (lost1 s) (lost2 s + o') true.
 
   Definition step (s : st) (x : op) : st :=
@@ -105,8 +106,11 @@ Section Step.
   Definition run (ops : list op) : st := fold_left step ops init.
 End Step.
 
-Definition impl_run := run false.
-Definition spec_run := run true.
+(* today's code: C21-1 is repaired (commit f72099c), C21-2 is open *)
+Definition impl_run := run true false.
+Definition spec_run := run true true.
+(* the code before the C21-1 repair, kept for the record of that finding *)
+Definition prefix_run := run false false.
 
 (* ---------- accounting ---------- *)
 
@@ -200,7 +204,7 @@ Record qstate := mkQ {
 Definition q_init : qstate := mkQ [] [] [] false 0.
 
 Section Queue.
-  Variable fixed : bool.
+  Variable fixed1 fixed2 : bool.
   Variable cfg : config.
 
   (* the read loop hands the i-th packet to the queue *)
@@ -213,7 +217,7 @@ Section Queue.
   (* the running task completes: its packet (if any) is on the wire, the next task starts *)
   Definition q_tick (q : qstate) : qstate :=
     if q_busy q then
-      let n := length (out (run fixed cfg (q_started q))) in
+      let n := length (out (run fixed1 fixed2 cfg (q_started q))) in
       match q_pend q with
       | [] => mkQ (q_sent q) (q_started q) [] false n
       | x :: r => mkQ (q_sent q) (q_started q ++ [x]) r true n
@@ -221,5 +225,5 @@ Section Queue.
     else q.
 
   (* what the backend has received so far *)
-  Definition q_visible (q : qstate) : list bp := firstn (q_nvis q) (out (run fixed cfg (q_started q))).
+  Definition q_visible (q : qstate) : list bp := firstn (q_nvis q) (out (run fixed1 fixed2 cfg (q_started q))).
 End Queue.
